@@ -419,18 +419,11 @@ Proof.
       rewrite CB. cbn [bind].
       pose proof (count_below_range (sc_minFromMax s n) (sc_live s)) as CR.
       set (nd0 := count_below (sc_minFromMax s n) (sc_live s)) in *.
-      (* the precondition excludes nd0 = n when full *)
-      assert (Hjump : sc_n s = sc_w s -> nd0 < sc_n s).
-      { intros Hfull. unfold sc_add_pre, sc_jump in P. rewrite Elast in P.
-        assert (Hlt : (fst cmax <? sc_minFromMax s n) = false) by lia.
-        (* the last element is not below the bound, so not all are counted *)
-        subst nd0. rewrite EL. unfold count_below. rewrite filter_app. cbn [filter]. rewrite Hlt.
-        rewrite app_nil_r. pose proof (count_below_range (sc_minFromMax s n) l'). unfold count_below in *. lia. }
       rewrite RL.
-      set (nd := if sc_n s =? sc_w s then nd0 + 1 else nd0).
-      assert (Hnd : 0 <= nd <= sc_n s) by (subst nd; destruct (sc_n s =? sc_w s) eqn:Ef; lia).
-      replace (if sc_n s =? sc_w s then u32 (nd0 + 1) else nd0) with nd
-        by (subst nd; destruct (sc_n s =? sc_w s); [rewrite u32_small; lia|reflexivity]).
+      set (nd := if (sc_n s =? sc_w s) && (nd0 <? sc_n s) then nd0 + 1 else nd0).
+      assert (Hnd : 0 <= nd <= sc_n s) by (subst nd; destruct ((sc_n s =? sc_w s) && (nd0 <? sc_n s)) eqn:Ef; lia).
+      replace (if (sc_n s =? sc_w s) && (nd0 <? sc_n s) then u32 (nd0 + 1) else nd0) with nd
+        by (subst nd; destruct ((sc_n s =? sc_w s) && (nd0 <? sc_n s)); [rewrite u32_small; lia|reflexivity]).
       assert (Hs1 : exists sl1, (if 0 <? nd then do sl <- sl_copy_tail "seqCounters.add:slice" (sc_sl s) 0 nd;
                                    Ok (mkSc sl (u32 (sc_n s - nd)) (sc_w s)) else Ok s)
                                 = Ok (mkSc sl1 (sc_n s - nd) (sc_w s))
@@ -443,7 +436,7 @@ Proof.
           split; [destruct s as [a b c]; reflexivity|]. auto. }
       destruct Hs1 as (sl1 & Hs1 & R1 & L1 & L2). rewrite Hs1. cbn [bind sc_sl sc_n sc_w].
       assert (Hroom : sc_n s - nd < slen sl1).
-      { rewrite L1, Hl. subst nd. destruct (sc_n s =? sc_w s) eqn:Ef; lia. }
+      { rewrite L1, Hl. subst nd. destruct ((sc_n s =? sc_w s) && (nd0 <? sc_n s)) eqn:Ef; lia. }
       destruct (rep_set_append "seqCounters.add:index" sl1 _ _ (n, 1) R1 Hroom) as (sl2 & Hs2 & R2 & L3 & L4).
       rewrite Hs2. cbn [bind]. rewrite u32_small by lia.
       eexists; split; [reflexivity|].
@@ -487,7 +480,6 @@ Proof.
       { intros Heq. rewrite EL, existsb_app in Hm. cbn [existsb] in Hm.
         apply orb_false_iff in Hm as [_ Hm]. lia. }
       unfold sc_add_pre, sc_between in P. rewrite Elast, Hm in P. cbn [negb] in P.
-      apply andb_true_iff in P as [_ P].
       destruct (first_seq (sc_live s) <? n) eqn:Ef; [|lia].
       replace (0 <? sc_n s) with true in P by lia.
       replace (sc_minFromMax s (fst cmax) <=? n) with true in P by lia.
@@ -508,12 +500,11 @@ Proof.
   split; [lia|]. split; [lia|]. split; [lia|]. split; [lia|]. rewrite takeZ_nonpos by lia. reflexivity.
 Qed.
 
-(** full window [1,2,3,4], then number 100: slice bounds out of range *)
-Lemma jump_refuted :
-  exists s n, sc_adds (sc_new 4) [1; 2; 3; 4] = Ok s /\ sc_inv s /\ sc_jump s n = true /\
-              sc_add s n = Panic "seqCounters.add:slice".
+(** full window [1,2,3,4], then number 100: before ffc392a a slice bounds panic, now the window restarts at 100 *)
+Lemma jump_repaired :
+  exists s s', sc_adds (sc_new 4) [1; 2; 3; 4] = Ok s /\ sc_inv s /\ sc_add s 100 = Ok s' /\ sc_live s' = [(100, 1)].
 Proof.
-  exists (sc_of 4 [1; 2; 3; 4]), 100. split; [vm_compute; reflexivity|]. split.
+  exists (sc_of 4 [1; 2; 3; 4]), (sc_of 4 [1; 2; 3; 4; 100]). split; [vm_compute; reflexivity|]. split.
   - apply sc_invb_ok. vm_compute. reflexivity.
   - split; vm_compute; reflexivity.
 Qed.
@@ -539,15 +530,13 @@ Proof.
     rewrite E in H. discriminate.
 Qed.
 
-(** seqCounters.resize to a smaller window keeps _nrCounters above len *)
-Lemma shrink_counters_refuted :
-  exists s s', sc_inv s /\ sc_resize s 3 = Ok s' /\ sc_n s' = 5 /\ slen (sc_sl s') = 3 /\
-               sc_add s' 6 = Panic "seqCounters.add:index".
+(** seqCounters.resize to a smaller window: before 502773f _nrCounters stayed above len, now the newest stay *)
+Lemma shrink_counters_repaired :
+  exists s s', sc_inv s /\ sc_resize s 3 = Ok s' /\ sc_inv s' /\ sc_live s' = [(3, 1); (4, 1); (5, 1)].
 Proof.
-  exists (sc_of 8 [1; 2; 3; 4; 5]).
-  eexists. split.
+  exists (sc_of 8 [1; 2; 3; 4; 5]). eexists. split.
   - apply sc_invb_ok. vm_compute. reflexivity.
-  - split; [vm_compute; reflexivity|]. repeat split; vm_compute; reflexivity.
+  - split; [vm_compute; reflexivity|]. split; [apply sc_invb_ok; vm_compute; reflexivity|vm_compute; reflexivity].
 Qed.
 
 (** ** drop, resize, newFullCounter, fullRange *)
@@ -621,21 +610,56 @@ Proof.
       apply incr_remove; [lia|exact Hi].
 Qed.
 
-Lemma sc_resize_inv s nw :
-  sc_inv s -> 0 < nw < two32 -> sc_n s <= nw ->
-  exists s', sc_resize s nw = Ok s' /\ sc_inv s' /\ sc_live s' = sc_live s /\ sc_w s' = nw /\ sc_n s' = sc_n s.
+(** copy(s[0:len], s[a:n]) keeps the last n-a live elements *)
+Lemma rep_copy_front {A} site (sl : slice A) n live a :
+  Rep sl n live -> 0 <= a <= n ->
+  exists sl', sl_copy site sl 0 (slen sl) a n = Ok sl' /\ Rep sl' (n - a) (dropZ a live)
+              /\ slen sl' = slen sl /\ scap sl' = scap sl.
 Proof.
-  intros I Hnw Hle. pose proof (sc_rep s I) as R. pose proof I as (Hw & Hn & Hl & Hc & Hi).
+  intros R Ha. pose proof R as (H1 & H2 & H3 & H4). pose proof (lenZ_nonneg live).
+  unfold sl_copy, slice_ok.
+  replace ((0 <=? 0) && (0 <=? slen sl) && (slen sl <=? scap sl) && ((0 <=? a) && (a <=? n) && (n <=? scap sl)))
+    with true by lia.
+  eexists; split; [reflexivity|]. unfold scap in *. cbn [arr slen].
+  replace (Z.min (slen sl - 0) (n - a)) with (n - a) by lia.
+  assert (L : lenZ (move (arr sl) 0 a (n - a)) = lenZ (arr sl)).
+  { unfold move. rewrite !lenZ_app, !lenZ_takeZ, !lenZ_dropZ by lia. lia. }
+  split; [|split; [reflexivity|exact L]].
+  assert (Ld : lenZ (dropZ a live) = n - a) by (rewrite lenZ_dropZ by lia; lia).
+  rsplit; cbn [arr slen]; try lia.
+  unfold move. rewrite (takeZ_nonpos 0) by lia. cbn [app].
+  rewrite (Rep_arr sl n live R) at 1. rewrite (dropZ_app_l a) by lia.
+  rewrite (takeZ_app_l (n - a) (dropZ a live)) by lia. rewrite (takeZ_all (n - a) (dropZ a live)) by lia.
+  rewrite <- Ld at 1. apply takeZ_app_exact.
+Qed.
+
+(** resize never panics and keeps the invariant; a window below the number of live counters keeps the newest *)
+Lemma sc_resize_inv s nw :
+  sc_inv s -> 0 < nw < two32 ->
+  exists s', sc_resize s nw = Ok s' /\ sc_inv s' /\ sc_w s' = nw
+             /\ sc_live s' = dropZ (sc_n s - nw) (sc_live s) /\ sc_n s' = Z.min (sc_n s) nw.
+Proof.
+  intros I Hnw. pose proof (sc_rep s I) as R. pose proof I as (Hw & Hn & Hl & Hc & Hi). pose proof R as (RL & _).
   unfold sc_resize. destruct (sc_w s <? nw) eqn:E1.
-  - destruct (rep_realloc (0, 0) (sc_sl s) _ _ nw R Hle) as ((R1 & R2 & R3 & R4) & L1 & L2).
+  - destruct (rep_realloc (0, 0) (sc_sl s) _ _ nw R ltac:(lia)) as ((R1 & R2 & R3 & R4) & L1 & L2).
     eexists; split; [reflexivity|]. unfold sc_inv, sc_live, czero. cbn [sc_sl sc_n sc_w]. rewrite R4, L1, L2.
-    repeat split; auto; lia.
+    rewrite dropZ_nonpos by lia. repeat split; auto; lia.
   - destruct (nw <? sc_w s) eqn:E2.
-    + destruct (rep_truncate "seqCounters.resize:slice" (sc_sl s) _ _ nw R ltac:(lia)) as (sl' & Ht & (R1 & R2 & R3 & R4) & L1 & L2).
-      rewrite Ht. cbn [bind]. eexists; split; [reflexivity|]. unfold sc_inv, sc_live. cbn [sc_sl sc_n sc_w].
-      rewrite R4, L1. repeat split; auto; lia.
+    + destruct (nw <? sc_n s) eqn:E3.
+      * rewrite u32_small by lia.
+        destruct (rep_copy_front "seqCounters.resize:slice" (sc_sl s) _ _ (sc_n s - nw) R ltac:(lia)) as (sl1 & Hc1 & R1 & L1 & L2).
+        rewrite Hc1. cbn [bind fst snd]. replace (sc_n s - (sc_n s - nw)) with nw in R1 by lia.
+        destruct (rep_truncate "seqCounters.resize:slice" sl1 _ _ nw R1 ltac:(lia)) as (sl' & Ht & (Q1 & Q2 & Q3 & Q4) & M1 & M2).
+        rewrite Ht. cbn [bind]. eexists; split; [reflexivity|]. unfold sc_inv. unfold sc_live at 1 2. cbn [sc_sl sc_n sc_w].
+        rewrite Q4, M1. split; [|split; [reflexivity|split; [reflexivity|lia]]].
+        split; [lia|]. split; [lia|]. split; [lia|]. split; [lia|].
+        rewrite map_dropZ. apply incr_dropZ. exact Hi.
+      * cbn [bind fst snd].
+        destruct (rep_truncate "seqCounters.resize:slice" (sc_sl s) _ _ nw R ltac:(lia)) as (sl' & Ht & (R1 & R2 & R3 & R4) & L1 & L2).
+        rewrite Ht. cbn [bind]. eexists; split; [reflexivity|]. unfold sc_inv, sc_live. cbn [sc_sl sc_n sc_w].
+        rewrite R4, L1. rewrite dropZ_nonpos by lia. repeat split; auto; lia.
     + assert (nw = sc_w s) by lia. subst nw. eexists; split; [reflexivity|].
-      unfold sc_inv, sc_live. cbn [sc_sl sc_n sc_w]. repeat split; auto; lia.
+      unfold sc_inv, sc_live. cbn [sc_sl sc_n sc_w]. rewrite dropZ_nonpos by lia. repeat split; auto; lia.
 Qed.
 
 Lemma newFull_loop_ok sl n live nrTracks maxSeqNr : forall fuel,
@@ -886,18 +910,30 @@ Proof.
   replace (Z.of_nat (Z.to_nat (b_n b - 1 + 1)) - 1) with (b_n b - 1) in Hr' by lia. eauto.
 Qed.
 
-(** resize that does not cut into the stored items keeps the invariant; the other case is the shrink defect *)
+(** resize never panics and keeps the invariant; fewer slots than items keeps the newest items
+    (and, since 9e29b04, sets c.size) *)
 Lemma sdb_resize_inv b nw :
-  sdb_inv b -> 0 < nw < two32 -> b_n b <= nw ->
-  exists b', sdb_resize b nw = Ok b' /\ sdb_inv b' /\ sdb_live b' = sdb_live b /\ b_size b' = nw /\ b_n b' = b_n b.
+  sdb_inv b -> 0 < nw < two32 ->
+  exists b', sdb_resize b nw = Ok b' /\ sdb_inv b' /\ b_size b' = nw
+             /\ sdb_live b' = dropZ (b_n b - nw) (sdb_live b) /\ b_n b' = Z.min (b_n b) nw.
 Proof.
-  intros I Hnw Hle. pose proof (sdb_rep b I) as R. pose proof I as (Hw & Hn & Hl & Hc & Hi & Hr).
+  intros I Hnw. pose proof (sdb_rep b I) as R. pose proof I as (Hw & Hn & Hl & Hc & Hi & Hr). pose proof R as (RL & _).
   unfold sdb_resize. destruct (nw =? b_size b) eqn:E1.
-  - exists b. repeat split; auto; lia.
-  - replace (nw <? b_n b) with false by lia.
-    destruct (rep_realloc izero (b_sl b) _ _ nw R Hle) as ((R1 & R2 & R3 & R4) & L1 & L2).
-    eexists; split; [reflexivity|]. unfold sdb_inv, sdb_live. cbn [b_sl b_n b_size]. rewrite R4, L1, L2.
-    repeat split; auto; lia.
+  - exists b. rewrite dropZ_nonpos by lia. repeat split; auto; lia.
+  - destruct (nw <? b_n b) eqn:E2.
+    + rewrite u32_small by lia.
+      destruct (rep_copy_tail "segDataBuffer.resize:slice" (b_sl b) _ _ 0 (b_n b - nw) R ltac:(lia) ltac:(lia)) as (sl1 & Hc1 & R1 & L1 & L2).
+      rewrite Hc1. cbn [bind]. rewrite (takeZ_nonpos 0) in R1 by lia. cbn [app] in R1.
+      replace (b_n b - (b_n b - nw - 0)) with nw in R1 by lia.
+      destruct (rep_truncate "segDataBuffer.resize:slice" sl1 _ _ nw R1 ltac:(lia)) as (sl' & Ht & (Q1 & Q2 & Q3 & Q4) & M1 & M2).
+      rewrite Ht. cbn [bind]. eexists; split; [reflexivity|]. unfold sdb_inv. unfold sdb_live at 1 2 3. cbn [b_sl b_n b_size].
+      rewrite Q4, M1. split; [|split; [reflexivity|split; [reflexivity|lia]]].
+      split; [lia|]. split; [lia|]. split; [lia|]. split; [lia|]. split.
+      * rewrite map_dropZ. apply incr_dropZ. exact Hi.
+      * apply Forall_dropZ. exact Hr.
+    + destruct (rep_realloc izero (b_sl b) _ _ nw R ltac:(lia)) as ((R1 & R2 & R3 & R4) & L1 & L2).
+      eexists; split; [reflexivity|]. unfold sdb_inv, sdb_live. cbn [b_sl b_n b_size]. rewrite R4, L1, L2.
+      rewrite dropZ_nonpos by lia. repeat split; auto; lia.
 Qed.
 
 Lemma sdb_drop_loop_spec b seqNr : forall l2 l1,
@@ -995,13 +1031,16 @@ Proof.
   split; [lia|]. split; [lia|]. split; [lia|]. split; [lia|]. rewrite takeZ_nonpos by lia. split; [reflexivity|constructor].
 Qed.
 
-Lemma shrink_refuted :
-  exists b b', sdb_inv b /\ sdb_resize b 3 = Ok b' /\ b_size b' = 8 /\ slen (b_sl b') = 3 /\ b_n b' = 3 /\
-               sdb_add b' (mkItem 6 12000 2000 false) = Panic "segDataBuffer.add:index".
+(** segDataBuffer.resize below the number of items: before 9e29b04 c.size stayed 8 and the next add
+    indexed past len; now the newest three items stay and the next add works *)
+Lemma shrink_repaired :
+  exists b b' b'', sdb_inv b /\ sdb_resize b 3 = Ok b' /\ b_size b' = 3 /\ map i_seq (sdb_live b') = [3; 4; 5] /\
+               sdb_add b' (mkItem 6 12000 2000 false) = Ok (b'', true) /\ map i_seq (sdb_live b'') = [4; 5; 6].
 Proof.
-  exists (sdb_of 8 [1; 2; 3; 4; 5]). eexists. split.
+  exists (sdb_of 8 [1; 2; 3; 4; 5]). do 2 eexists. split.
   - apply sdb_invb_ok. vm_compute. reflexivity.
-  - split; [vm_compute; reflexivity|]. repeat split; vm_compute; reflexivity.
+  - split; [vm_compute; reflexivity|]. split; [vm_compute; reflexivity|]. split; [vm_compute; reflexivity|].
+    split; vm_compute; reflexivity.
 Qed.
 
 (** * segmentTimelineGenerator *)
@@ -1176,17 +1215,13 @@ Lemma gen_start_inv g nw sh :
              /\ g_started g' = true /\ g_shifted g' = sh.
 Proof.
   intros I P. pose proof I as (Ic & Ew & Hw & Fb & Hl).
-  unfold gen_resize_pre in P. apply andb_true_iff in P as [P Pb]. rewrite forallb_forall in Pb.
-  assert (Hnw : 0 < nw < two32) by lia. assert (Hcn : sc_n (g_cnt g) <= nw) by lia.
+  unfold gen_resize_pre in P. assert (Hnw : 0 < nw < two32) by lia.
   unfold gen_start, gen_resize.
-  assert (Fb2 : Forall (fun kb => (sdb_inv (snd kb) /\ b_size (snd kb) = g_w g) /\ b_n (snd kb) <= nw) (g_bufs g)).
-  { apply Forall_forall. intros kb Hin. split; [exact (proj1 (Forall_forall _ _) Fb kb Hin)|].
-    specialize (Pb kb Hin). lia. }
   destruct (map_bufs_spec (fun b => sdb_resize b nw) _ (fun kb => sdb_inv (snd kb) /\ b_size (snd kb) = nw)
-              (fun k b H => match sdb_resize_inv b nw (proj1 (proj1 H)) Hnw (proj2 H) with
-                            | ex_intro _ b' (conj A (conj B (conj C (conj D E)))) =>
-                              ex_intro _ b' (conj A (conj B D)) end) _ Fb2) as (l1 & Hm & Fl1 & _).
-  rewrite Hm. cbn [bind]. destruct (sc_resize_inv _ nw Ic Hnw Hcn) as (c1 & Hc & Ic1 & _ & Wc1 & _).
+              (fun k b H => match sdb_resize_inv b nw (proj1 H) Hnw with
+                            | ex_intro _ b' (conj A (conj B (conj C D))) =>
+                              ex_intro _ b' (conj A (conj B C)) end) _ Fb) as (l1 & Hm & Fl1 & _).
+  rewrite Hm. cbn [bind]. destruct (sc_resize_inv _ nw Ic Hnw) as (c1 & Hc & Ic1 & Wc1 & _).
   rewrite Hc. cbn [bind g_bufs g_cnt].
   destruct sh.
   - destruct (gen_unshift_inv nw l1 c1 Fl1 Ic1) as (l2 & c2 & Hu & Fl2 & Ic2 & Wc2). rewrite Hu. cbn [bind].
@@ -1202,16 +1237,13 @@ Qed.
 
 (** * channel.receivedSegData *)
 Lemma derive_ok g tracks :
-  tracks_ready g tracks = true -> derive_bitrates g tracks = Ok tt /\ derive_framerates g tracks = Ok tt.
+  derive_bitrates g tracks = Ok tt /\ derive_framerates g tracks = Ok tt.
 Proof.
-  induction tracks as [|t r IH]; intros H; [split; reflexivity|].
-  cbn [tracks_ready forallb] in H. apply andb_true_iff in H as [Ht Hr]. destruct (IH Hr) as (B & F).
-  cbn [derive_bitrates derive_framerates]. destruct (lookup (tr_name t) (g_bufs g)) as [b|].
-  - split.
-    + destruct (tr_btrt t); cbn [bind orb] in *; [exact B|].
-      destruct (sum_durs (takeZ (b_n b) (arr (b_sl b))) =? 0); [discriminate|]. cbn [bind]. exact B.
-    + destruct (negb (tr_video t)); cbn [bind]; exact F.
-  - apply andb_true_iff in Ht as [H1 H2]. rewrite H1, H2. cbn [bind]. split; assumption.
+  induction tracks as [|t r IH]; [split; reflexivity|]. destruct IH as (B & F).
+  cbn [derive_bitrates derive_framerates]. split.
+  - destruct (tr_btrt t); cbn [bind]; [exact B|]. destruct (lookup (tr_name t) (g_bufs g)) as [b|]; cbn [bind]; [|exact B].
+    destruct (b_n b =? 0); cbn [bind]; [exact B|]. destruct (sum_durs (takeZ (b_n b) (arr (b_sl b))) =? 0); cbn [bind]; exact B.
+  - destruct (negb (tr_video t)); cbn [bind]; [exact F|]. destruct (lookup (tr_name t) (g_bufs g)); cbn [bind]; exact F.
 Qed.
 
 Lemma sl_get_arr {A} site (sl : slice A) i :
@@ -1285,10 +1317,10 @@ Proof.
     change (ch_gen (with_gen (with_gen c g2) g3)) with g3. rewrite Sh3, Sh2, Sh1, Hns. discriminate. }
   (* the channel starts *)
   rewrite Eft in *.
-  apply andb_true_iff in Pst as [Pst Pres]. apply andb_true_iff in Pst as [Pdur Prdy].
+  apply andb_true_iff in Pst as [Pdur Pres].
   assert (Hdur : i_dur i1 <> 0) by lia.
   unfold go_div, go_rem. replace (i_dur i1 =? 0) with false by lia. cbn [bind].
-  destruct (derive_ok _ _ Prdy) as (Db & Df). rewrite Db, Df. cbn [bind].
+  destruct (derive_ok g2 (ch_tracks c)) as (Db & Df). rewrite Db, Df. cbn [bind].
   unfold start_window in Pres.
   destruct (gen_start_inv g2 _ (negb ((if Z.rem (i_dts i0) (i_dur i1) =? 0
                                        then if Z.quot (i_dts i0) (i_dur i1) =? i_seq i0 then 0 else Z.quot (i_dts i0) (i_dur i1) - i_seq i0
@@ -1376,12 +1408,28 @@ Proof.
   induction tracks as [|t r IH]; intros c I; [exact I|]. cbn [fold_left]. apply IH. apply chan_register_inv. exact I.
 Qed.
 
-(** C17_safe as stated (no arrival order stops the receiver) is false: one video track, window 3
-    (timeShiftBufferDepth 4 s, 2 s segments), numbers 1,2,3 and then 100 *)
+Definition run_ok_and (c : chan) (ups : list upload) (f : chan -> bool) : bool :=
+  match chan_run c ups with Ok c' => f c' | _ => false end.
+
+Lemma run_ok_and_ok c ups f : run_ok_and c ups f = true -> exists c', chan_run c ups = Ok c' /\ f c' = true.
+Proof. unfold run_ok_and. destruct (chan_run c ups) as [c'| |]; try discriminate. eauto. Qed.
+
+(** one video track, window 3 (timeShiftBufferDepth 4 s, 2 s segments), numbers 1,2,3 and then 100:
+    before ffc392a the channel goroutine died in seqCounters.add, now the run goes on and every
+    precondition holds *)
+Lemma jump_run_repaired :
+  let c := chan_with [[0]] 4 [mkTrack 0 true true 90000] in
+  let ups := [up 0 1; up 0 2; up 0 3; up 0 100; up 0 101] in
+  run_pre c ups /\
+  exists c', chan_run c ups = Ok c' /\ list_eqb Z.eqb (map fst (sc_live (g_cnt (ch_gen c')))) [100; 101] = true.
+Proof. split; [apply run_preb_ok; vm_compute; reflexivity|]. apply run_ok_and_ok. vm_compute. reflexivity. Qed.
+
+(** C17_safe as stated (no arrival order stops the receiver) is still false: two consecutive
+    segments of the master track with duration 0 make receivedSegData divide by masterSegDuration = 0 *)
 Lemma safe_refuted :
-  exists c ups, chan_inv c /\ chan_run c ups = Panic "seqCounters.add:slice".
+  exists c ups, chan_inv c /\ chan_run c ups = Panic "channel.receivedSegData:div".
 Proof.
-  exists (chan_with [[0]] 4 [mkTrack 0 true true 90000]), [up 0 1; up 0 2; up 0 3; up 0 100].
+  exists (chan_with [[0]] 30 [mkTrack 0 true true 90000]), [mkUp 0 (mkItem 1 0 0 false); mkUp 0 (mkItem 2 0 0 false)].
   split; [apply chan_with_inv|vm_compute; reflexivity].
 Qed.
 
@@ -1400,23 +1448,21 @@ Proof.
   split; [vm_compute; reflexivity|]. split; [vm_compute; reflexivity|]. split; [vm_compute; discriminate|vm_compute; reflexivity].
 Qed.
 
-(** two video tracks, the master delivers two segments before the other one delivers any *)
-Lemma start_nil_refuted :
-  exists c ups, chan_inv c /\ chan_run c ups = Panic "segDataBuffer.nrItems:nil".
-Proof.
-  exists (chan_with [[0; 1]] 30 [mkTrack 0 true true 90000; mkTrack 1 true true 90000]), [up 0 1; up 0 2].
-  split; [apply chan_with_inv|vm_compute; reflexivity].
-Qed.
+(** two video tracks, the master delivers two segments before the other one delivers any: before
+    9aa9fdc a nil dereference in deriveAndSetFrameRates, now the channel starts (with one track counted) *)
+Lemma start_without_segments_repaired :
+  let c := chan_with [[0; 1]] 30 [mkTrack 0 true true 90000; mkTrack 1 true true 90000] in
+  run_pre c [up 0 1; up 0 2] /\
+  exists c', chan_run c [up 0 1; up 0 2] = Ok c' /\ g_started (ch_gen c') && (g_ntracks (ch_gen c') =? 1) = true.
+Proof. split; [apply run_preb_ok; vm_compute; reflexivity|]. apply run_ok_and_ok. vm_compute. reflexivity. Qed.
 
-(** a text track without btrt whose only segment was dropped because the master's first two
-    segments were not consecutive *)
-Lemma start_div_refuted :
-  exists c ups, chan_inv c /\ chan_run c ups = Panic "channel.deriveAndSetBitrates:div".
-Proof.
-  exists (chan_with [[0]; [2]] 30 [mkTrack 0 true true 90000; mkTrack 2 false false 1000]),
-         [mkUp 2 (mkItem 1 2000 2000 false); up 0 1; up 0 3; up 0 4].
-  split; [apply chan_with_inv|vm_compute; reflexivity].
-Qed.
+(** a text track without btrt whose only segment was dropped because the master's first two segments
+    were not consecutive: before 9aa9fdc a division by zero in deriveAndSetBitrates *)
+Lemma start_empty_buffer_repaired :
+  let c := chan_with [[0]; [2]] 30 [mkTrack 0 true true 90000; mkTrack 2 false false 1000] in
+  let ups := [mkUp 2 (mkItem 1 2000 2000 false); up 0 1; up 0 3; up 0 4] in
+  run_pre c ups /\ exists c', chan_run c ups = Ok c' /\ g_started (ch_gen c') = true.
+Proof. split; [apply run_preb_ok; vm_compute; reflexivity|]. apply run_ok_and_ok. vm_compute. reflexivity. Qed.
 
 (** non-vacuity of the safety theorem: a run of three tracks with a gap and a duplicate satisfies every precondition *)
 Lemma run_pre_example :
